@@ -23,7 +23,7 @@ import os
 import subprocess
 import sys
 
-from ..ref.c08c18c19_c19models import GENS, VARIANTS, applicable, REDECL, REDECL_CLS
+from ..ref.c08c18c19_c19models import GENS, VARIANTS, applicable, REDECL, REDECL_CLS, INCR
 
 PROPERTY = 'C19'
 TIMEOUT = 120.0
@@ -78,6 +78,16 @@ def gen_cases(tier, seed):
         if g.startswith('ro_'):
             for v in ('f64', 'f32', 'i64', 'i32', 'strided', 'readonly'):
                 yield {'kind': 'assign', 'gen': g, 'variant': v}
+    # directly used lp / socp / gcp model classes: declare k things, formulate / solve, declare the rest
+    for fl, nd in INCR.items():
+        for k in range(1, nd):
+            for mid in ('P', 'D', 'S'):
+                for fin in ('P', 'D', 'S'):
+                    yield {'kind': 'incr', 'fl': fl, 'splits': [k], 'mid': mid, 'fin': fin}
+        for k1 in range(1, nd):
+            for k2 in range(k1 + 1, nd):
+                for mid in ('P', 'S'):
+                    yield {'kind': 'incr', 'fl': fl, 'splits': [k1, k2], 'mid': mid, 'fin': 'P'}
     for g, rl in REDECL.items():
         xy = ['P', 'D', 'S_def', 'S_eco'] if REDECL_CLS[g] == 'lp' else ['P', 'D', 'S_eco']
         for r in rl:
@@ -511,8 +521,96 @@ def run_redecl(case):
             'outcome': 'redecl ok %s %s' % (cls, 'changes the program' if differs else 'same program')}
 
 
+def _direct_step(m, fl, step):
+    """P / D / S on a directly used lp / socp / gcp model -> (formula or None, (ok, objective) or None)."""
+    if step == 'P':
+        return m.do_math(), None
+    if step == 'D':
+        return m.do_math(primal=False), None
+    if fl == 'lp':
+        m.solve(display=False)
+        iface = 'def'
+    else:
+        m.solve(_rs['eco'], display=False)
+        iface = 'eco'
+    return None, _opt(m, iface)
+
+
+def run_incr(case):
+    cm, M = _rs['cm'], _rs['M']
+    fl, splits, mid, fin = case['fl'], case['splits'], case['mid'], case['fin']
+    key = ('incr', fl)
+    if key not in _ref:
+        ref = {}
+        m1, d1 = M.incr_model(fl)
+        for d in d1:
+            d()
+        ref['P'] = cm.snapshot(m1.do_math())
+        m2, d2 = M.incr_model(fl)
+        for d in d2:
+            d()
+        ref['D'] = cm.snapshot(m2.do_math(primal=False))
+        m3, d3 = M.incr_model(fl)
+        for d in d3:
+            d()
+        _, (ok, v) = _direct_step(m3, fl, 'S')
+        ref['obj'] = v if ok else None
+        _ref[key] = ref
+    ref = _ref[key]
+    rng0 = _rng_state()
+    m, decl = M.incr_model(fl)
+    ops = 6
+    exp_before = False
+    pos = 0
+    try:
+        for k in splits:
+            for d in decl[pos:k]:
+                d()
+            if any(pos <= e < k or e < k for e in M.INCR_EXP_DECL.get(fl, ())):
+                exp_before = True
+            pos = k
+            _direct_step(m, fl, mid)
+            ops += k + 1
+        for d in decl[pos:]:
+            d()
+        f, res = _direct_step(m, fl, fin)
+    except Exception as ex:  # noqa
+        return {'status': 'violation', 'ops': ops, 'sig': 'incr|%s|mid=%s|fin=%s raises %s' % (fl, mid, fin,
+                                                                                          type(ex).__name__),
+                'detail': 'splits %s: %s' % (splits, str(ex)[:160])}
+    tag = 'incr|%s|mid=%s|exp atom declared before the intermediate formulation=%s' % (fl, mid,
+                                                                                     'yes' if exp_before else 'no')
+    if _rng_state() != rng0:
+        return {'status': 'violation', 'ops': ops, 'sig': tag + '|global RNG state consumed', 'detail': ''}
+    if fin == 'S':
+        ok, v = res
+        if ok and ref['obj'] is not None and abs(v - ref['obj']) > 1e-5 * (1 + abs(v)):
+            return {'status': 'violation', 'ops': ops, 'sig': tag + '|optimum differs from the fresh build',
+                    'detail': 'splits %s: %.9g vs fresh %.9g' % (splits, v, ref['obj'])}
+        got, which = cm.snapshot(m.do_math()), 'P'
+    else:
+        got, which = cm.snapshot(f), fin
+    d = cm.snap_diff(ref[which], got)
+    if d:
+        return {'status': 'violation', 'ops': ops,
+                'sig': '%s|%s after incremental declaration differs from the fresh build:%s' % (tag, which,
+                                                                                             cm.snap_field(d)),
+                'detail': 'splits %s: %s' % (splits, d)}
+    # same optimum (also for P / D: solve what was returned)
+    if fin in ('P', 'D') and ref['obj'] is not None:
+        vv, val, _, _ = cm.solve_formula(f, 'def' if fl == 'lp' else 'eco')
+        want = ref['obj'] if fin == 'P' else -ref['obj']
+        if vv == 'optimal' and abs(val - want) > 1e-5 * (1 + abs(want)):
+            return {'status': 'violation', 'ops': ops, 'sig': tag + '|optimum differs from the fresh build',
+                    'detail': 'splits %s: %.9g vs %.9g' % (splits, val, want)}
+    return {'status': 'pass', 'ops': ops, 'nontrivial': True, 'states': len(splits) + 1, 'validated': 1,
+            'outcome': 'incr ok %s splits=%d' % (fl, len(splits))}
+
+
 def run_case(case):
     k = case['kind']
+    if k == 'incr':
+        return run_incr(case)
     if k == 'redecl':
         return run_redecl(case)
     if k == 'rep':
